@@ -173,7 +173,17 @@ def spec_of(draw, kind, small=True):
     if kind == "tm":
         return draw(GT.tm_specs(max_states=4, sigma=["a", "b"], halting_initial=False))
     if kind == "cfg":
-        if draw(st.integers(0, 3)) == 0:
+        k = draw(st.integers(0, 7))
+        if k == 0:
+            # unit-rule chains and cycles through 4-6 variables (shuffled rule list)
+            s = draw(GC.unit_chain_specs(terms=("a", "b"), max_len=5))
+            s["R"] = [r for r in s["R"] if r[0] == s["S"]] + [r for r in s["R"] if r[0] != s["S"]]
+            if not any(r[0] == s["S"] for r in s["R"]):
+                s["R"].insert(0, [s["S"], ["a"]])
+            for A in s["V"]:
+                if not any(r[0] == A for r in s["R"]):
+                    s["R"].append([A, ["b"]])
+        elif k <= 2:
             s = draw(GC.pseudo_cnf_specs(max_vars=3))
         else:
             s = draw(GC.cfg_specs(max_vars=3, terms=("a", "b"), simple=True, allow_norule=False, max_len=3))
